@@ -74,8 +74,29 @@ def determinism(argv) -> int:
     return 2 if bad else 0
 
 
+def history(argv) -> int:
+    """The driver's fallback for failures that depend on earlier cases of the same process: the synthetic check C99 fails only
+    after two other cases ran; the run must end with a VIOLATION whose replay file carries a minimised history that reproduces
+    in a fresh interpreter."""
+    import json
+    import re
+
+    r = _run_check("C99", "/repo/src")
+    m = re.search(r"VIOLATION property=C99 replay=(\S+)", r.stdout)
+    if r.returncode != 1 or not m:
+        print("history self-test FAILED: no VIOLATION\n" + r.stdout[-800:])
+        return 1
+    doc = json.load(open(m.group(1)))
+    ok = bool(doc.get("history")) and len(doc["history"]) <= 4
+    rr = subprocess.run([sys.executable, os.path.join(VERIF, "checks", "main.py"), "C99", "--replay", m.group(1)], capture_output=True, text=True,
+                        env=dict(os.environ, PYTHONHASHSEED="0", PYTHONPATH=VERIF))
+    ok = ok and rr.returncode == 1 and "REPLAY-REPRODUCED" in rr.stdout
+    print(f"history self-test: minimised history {doc.get('history')} replays: {ok}")
+    return 0 if ok else 1
+
+
 def main(argv) -> int:
     if not argv:
-        print("usage: check selftest sensitivity [patterns] | determinism [ids]")
+        print("usage: check selftest sensitivity [patterns] | determinism [ids] | history")
         return 2
-    return {"sensitivity": sensitivity, "determinism": determinism}[argv[0]](argv[1:])
+    return {"sensitivity": sensitivity, "determinism": determinism, "history": history}[argv[0]](argv[1:])
